@@ -5,7 +5,7 @@ COMPONENTS_SIM = {
               'guest code (scripted by the plan)', 'fault box (allocator / create / grant / lookup failures)'],
 }
 
-WORLDS = ['apptoken', 'mem', 'callback', 'invoke', 'toctou', 'bulk']
+WORLDS = ['apptoken', 'mem', 'callback', 'invoke', 'toctou', 'bulk', 'transition']
 
 PROPS = {
     'C15': dict(
@@ -146,4 +146,26 @@ PROPS.update({
                              'null start of copy_and_verify_range/_string is handed to the verifier as null (documented behaviour): accepted, nothing may be touched',
                              'element types whose guest size differs from the host size (long) are not generated: the range given is ambiguous for them',
                              'libc strlen may scan up to 512 bytes past the terminator inside the region (aligned vector blocks): tolerated in the read-set check']),
+})
+
+TR_RULE = ('one run = one tree of nested crossings (invoke -> guest makes 0-3 callback calls -> callback bodies invoke again ..., depth <= 4, 1-2 sandboxes each with its own '
+           'transition state, sim or noop backend) with up to two abort positions among: conversion of an invoke argument (value not representable in the guest type), '
+           'guest trap before any callback call or at the end, callback body at entry or after its nested crossing, conversion of the callback result; callback bodies may '
+           'catch an inner abort and continue, and may change their sandbox\'s transition state mid-crossing; the recorded hook sequence must equal the model\'s bracket word '
+           '(an entry that aborted before the guest ran may be announced-and-closed or not announced), the timing vector must hold exactly one record of the right kind and '
+           'identity per crossing with a time inside the simulated span; quick tier enumerates 24 tree shapes (depth<=3, width<=2) x 2 backends x 1-2 sandboxes x every single '
+           'abort position; builds: hooks only, timing only, both; non-trivial = an abort fired or the state changed inside a crossing; distinct = event-log hashes')
+TR_WORLD = dict(world='transition', variants=['hooks', 'timing', 'both'], quick=dict(count=150000, time_limit=60, enumerate=True),
+                thorough=dict(count=9000000, time_limit=900, enumerate=True))
+PROPS.update({
+    'C19': dict(level='fault_enumeration', worlds=[TR_WORLD], rule=TR_RULE,
+                components=dict(real_code=CB_COMPONENTS['real_code'][:2],
+                                stubs=COMPONENTS_SIM['stubs'] + ['simulated clock (rlbox::high_resolution_clock shadow: every reading is a seeded increment)',
+                                                                 'hook macros RLBOX_TRANSITION_ACTION_IN/OUT recording into the history']),
+                exhaustive_subspace='24 tree shapes (depth<=3, width<=2) x {sim, noop} x {1,2} sandboxes x every single abort position (0..28), per build',
+                expect_probes=['F9_abort_at_argument_conversion', 'F9_abort_in_callback_body', 'F9_guest_trap', 'F9_unrepresentable_callback_result',
+                               'inner_abort_caught_by_outer_callback', 'transition_state_changed_inside_callback'],
+                assumptions=['hooks themselves never abort (the OUT / closing IN notifications run inside scope guards, an abort there would terminate the process)',
+                             'an invocation that aborts during argument conversion, before sandboxed code is entered: announced-and-closed or silent are both accepted, an unmatched notification never is',
+                             'timing values are checked for range (0 <= t <= simulated time elapsed), kind and identity, not for equality with a predicted difference of clock readings']),
 })
